@@ -111,6 +111,15 @@ def run(ck, ctx):
               "its parameters", not bad and not task_effects, runs[0][3], fn,
               f"{sum(1 for e in kernel_effects if e.kind in ('write', 'attr-write'))} writes inspected, all on "
               "objects created in the same invocation" if not bad else f"{len(bad)} offending write(s)")
+        stop = [e for e in r.effects if e.kind == "may-raise" and e.data.get("text") == "StopIteration" and
+                ("CphotAng.run" in e.funcs() or any(f_ in between for _s, f_ in e.chain if f_ is not None))]
+        for e in stop[:3]:
+            f = e.funcs()[-1] if e.funcs() else "?"
+            ck.ob("R10.1", f"no StopIteration can leave the function mapped over the events [{f} at {e.where()}]", False,
+                  e.node, f, "next() without a default on an iterator that can be exhausted: a StopIteration raised inside "
+                  "a function that dask (or map) iterates is read as the end of the partition - that event and every "
+                  "later event of the partition are dropped without an error, the batch comes back shorter and shifted",
+                  construct=f"{f}: next() without default inside the mapped kernel")
         unk = [e for e in kernel_effects if e.kind in ("call-unknown", "extcall-unknown", "mcall-unknown",
                                                         "mcall-mutate", "unsupported", "recursion-cut")]
         for e in unk:
